@@ -33,6 +33,14 @@ type c16Group struct {
 	Policy  string  `json:"policy"` // min_last | min_avg10 | min_moving_avg | random | fixed
 	Members []int   `json:"members"`
 	Offsets []int64 `json:"offsets"` // ns, one per member
+	Oid     *int    `json:"oid"`     // outbound id of the group (default: index + 2; 0 and 1 are direct and block)
+}
+
+func (g c16Group) oid(gi int) uint8 {
+	if g.Oid != nil {
+		return uint8(*g.Oid)
+	}
+	return uint8(gi + 2)
 }
 
 type c16Op struct {
@@ -75,7 +83,7 @@ type c16Step struct {
 type c16Result struct {
 	Init  c16Step   `json:"init"`
 	Steps []c16Step `json:"steps"`
-	Keys  [][3]int  `json:"keys"` // group, dom, key
+	Keys  [][3]int  `json:"keys"` // outbound id, dom, key
 	Panic string    `json:"panic,omitempty"`
 }
 
@@ -208,8 +216,8 @@ func (w *c16World) build() {
 				if alive {
 					v = 1
 				}
-				// outbound ids 0 and 1 are direct and block
-				w.bits = append(w.bits, [4]int{gi, c16Dom(nt), int(outboundConnectivityMapKey(uint8(gi+2), nt)), v})
+				// the slot the control plane writes for this outbound id (outboundAliveChangeCallback's key)
+				w.bits = append(w.bits, [4]int{gi, c16Dom(nt), int(outboundConnectivityMapKey(gc.oid(gi), nt)), v})
 			})
 		w.groups = append(w.groups, g)
 	}
@@ -327,7 +335,7 @@ func c16Run(cs c16Case) (res c16Result) {
 	res.Keys = [][3]int{}
 	for gi := range w.groups {
 		for dom := 0; dom < 6; dom++ {
-			res.Keys = append(res.Keys, [3]int{gi, dom, int(outboundConnectivityMapKey(uint8(gi+2), c16Type(dom, false)))})
+			res.Keys = append(res.Keys, [3]int{int(cs.Groups[gi].oid(gi)), dom, int(outboundConnectivityMapKey(cs.Groups[gi].oid(gi), c16Type(dom, false)))})
 		}
 	}
 	for _, op := range cs.Ops {
